@@ -205,6 +205,33 @@ def gen_k3(rng, n, mode_mix=("consistent", "free"), nops=(3, 6, 10), weighted=Tr
     return out, meta
 
 
+def gen_k3_conflict(rng, n):
+    """formulae asserted TRUE / FALSE over operands that already carry graded bounds, node-level downward calls first
+    (before any upward call has seen the conflict), then an arbitrary mix: the inverse of a resolved formula has to be
+    intersected with what the operand already holds"""
+    out, meta = [], []
+    for _ in range(n):
+        kb = gen_kb(rng, weighted=rng.random() < 0.3, nforms=rng.choice([1, 2, 3]),
+                    kinds=["Not", "Not", "Not", "And", "Or", "Implies", "Iff"])
+        roots = roots_of(rng, kb)
+        kb, roots = restrict(kb, roots)
+        owned = {j for o in kb if o[0] in (5, 6) for j in list(o[1]) + list(o[3])}
+        data = []
+        for i, o in enumerate(kb):
+            if o[0] == 0:
+                if rng.random() < 0.85:
+                    l, u = sorted((rng.choice(G8), rng.choice(G8)))
+                    data.append([i, [l, u]])
+            elif i not in owned and rng.random() < 0.8:
+                data.append([i, rng.choice([[F(1), F(1)], [F(1), F(1)], [F(0), F(0)], [F(0), F(0)], [F(1), F(0)]])])
+        forms = [i for i, o in enumerate(kb) if o[0] != 0]
+        ops = [[2, rng.choice(forms), -1] for _ in range(rng.choice([1, 2, 3]))]
+        ops += gen_ops(rng, kb, roots, rng.choice([2, 4]), model_level=0.3)
+        out.append([3, kb, roots, data, ops])
+        meta.append({"mode": "conflict", "hidden": None, "nobj": len(kb), "kinds": sorted(set(o[0] for o in kb))})
+    return out, meta
+
+
 def gen_k3_late(rng, n):
     """knowledge added over several add_knowledge calls: a first call with some roots, later calls (op 13) with the others,
     structurally equal twins likely; has_contradiction() probed between the calls"""
